@@ -756,9 +756,17 @@ def w10(rep):
     """Archive member headers (written by ar(1)) hold blank-padded numbers; a field that the digits fill completely has no blank:
     the text buffer then ends at the NUL arReadText appends.  arReadNumber must accept both terminators and reject any other."""
     from .peval import peval
-    f = common.extract("archive.c", trees=["arReadNumber"], cfg=["arReadNumber"])
+    f = common.extract("archive.c", all_trees=True, cfg=["arReadNumber"])
     fn = f.func("arReadNumber")
     cfg = common.CFG(fn)
+    # the error report may sit in a helper of the same file (depth 2)
+    reporters = {"comsgError"}
+    for _ in range(2):
+        for nm_, g in f.funcs.items():
+            if "body" in g and nm_ not in reporters and nm_ != "arReadNumber" and \
+                    any(c.get("callee") in reporters for c in calls(g["body"])) and g.get("file", "").endswith("archive.c") and \
+                    len([x for x in walk(g["body"]) if x["k"] in ("IfStmt", "ForStmt", "WhileStmt", "SwitchStmt")]) == 0:
+                reporters.add(nm_)                     # straight-line helper that always reports
     conv = cfg.events(lambda n: n["k"] == "CallExpr" and n.get("callee") in ("strtol", "strtoul"))
     if len(conv) != 1:
         raise AnalysisBroken("arReadNumber: expected one strtol call, found %d" % len(conv))
@@ -788,7 +796,7 @@ def w10(rep):
             if val is None:
                 return True
             return s_ == (ce[1] if val else ce[2])
-        return cfg.path_avoiding(cb, lambda n: n["k"] == "CallExpr" and n.get("callee") == "comsgError", lambda n: False,
+        return cfg.path_avoiding(cb, lambda n: n["k"] == "CallExpr" and n.get("callee") in reporters, lambda n: False,
                                  src_idx=cj, edge_ok=edge_ok)
     where = "archive.c:%d (arReadNumber)" % fn["l"]
     for label, v, want in (("nul", 0, False), ("blank", 32, False), ("letter", ord("x"), True), ("slash", ord("/"), True)):
